@@ -310,6 +310,7 @@ pub fn canary_b7(b: PackageBuilder, records: Vec<IndexEntry<IndexTag>>)
 '''),
 ] + TAIL
 
-OBLIGATIONS = {'PackageBuilder::b6_scalar_records': ['C06'], 'PackageBuilder::b7_optional_records': ['C06'], 'lemma_push_has': ['C06'], 'lemma_grew_trans': ['C06'], 'Scriptlet::apply': ['C06'], 'lemma_prefix_trans': ['C06'], 'lemma_prefix_emitted': ['C06'], 'lemma_scriptlet_chain': ['C06'], 'lemma_push_kept': ['C06'], 'lemma_prefix_kept': ['C06']}
+OBLIGATIONS = {'PackageBuilder::b6_scalar_records': ['C06', 'C17'],   # C17: the `expect` on narrowing the installed size cannot fail
+               'PackageBuilder::b7_optional_records': ['C06'], 'lemma_push_has': ['C06'], 'lemma_grew_trans': ['C06'], 'Scriptlet::apply': ['C06'], 'lemma_prefix_trans': ['C06'], 'lemma_prefix_emitted': ['C06'], 'lemma_scriptlet_chain': ['C06'], 'lemma_push_kept': ['C06'], 'lemma_prefix_kept': ['C06']}
 OBLIGATIONS.update({'PackageBuilder::b9_%s' % g[0][0]: ['C06'] for g in _GROUPS})
 CANARIES = ['canary_b7', 'canary_b9']
